@@ -450,14 +450,13 @@ class BlochSphereRotation(Gate):
         if self.qubit != other.qubit:
             return False
 
-        if abs(self.phase - other.phase) > ATOL:
-            return False
+        # Different (axis, angle, phase) triples can denote the same operator, e.g. a rotation by pi about -x
+        # with phase -pi/2 is X, so compare the operators, including their phase.
+        from opensquirrel.utils.matrix_expander import can1
 
-        if np.allclose(self.axis, other.axis):
-            return abs(self.angle - other.angle) < ATOL
-        if np.allclose(self.axis, -other.axis.value):
-            return abs(self.angle + other.angle) < ATOL
-        return False
+        return np.allclose(
+            can1(self.axis, self.angle, self.phase), can1(other.axis, other.angle, other.phase), atol=ATOL
+        )
 
     def accept(self, visitor: IRVisitor) -> Any:
         visitor.visit_gate(self)
